@@ -113,6 +113,8 @@ var menus = map[string]string{
 	"MALL": "PC PP0 VC NV NVF NVW NVH XT OUT",
 	"MN":   "PC NVN PP0",
 	"MZ":   "PC PP0 NV NVM VC",
+	"ME":   "NVE",
+	"MZE":  "PC PP0 NV NVE VC", // + NEW_VIEW / vote locked on an empty-hash proof forged from proof-less VIEW_CHANGE signatures
 	"M5":   "PC PPV", // only used to (re)generate the witness of the recorded stand-alone-PREPREPARE finding
 }
 
@@ -143,6 +145,9 @@ func plan(prop, tier string) []run {
 		for _, c := range []string{"K2@v0z", "K1@v1z", "K3b@v1z"} {
 			r = append(r, run{cfg: c, menu: "MZ", prims: menus["MZ"], budget: bud, maxV: 1})
 		}
+		// Byzantine members that lead TWO views within the bound: a NEW_VIEW of the second can be locked on what was
+		// gathered in the first
+		r = append(r, run{cfg: "K3b@v4z", menu: "ME", prims: menus["ME"], budget: 30 * time.Second, maxV: 4}) // exhaustive (~1.7e5 states)
 	}
 	if prop == "C12" {
 		// protocol-level robustness: a consumer whose validator accepts a missing block; proposals without
@@ -211,6 +216,7 @@ func plan(prop, tier string) []run {
 		add("K1", "MALL", 0, mul*15*time.Second)
 		add("K2", "MALL", 0, mul*15*time.Second)
 		add("K6", "M7", 0, mul*10*time.Second)
+		add("K3b@v4a", "ME", 0, mul*20*time.Second) // two Byzantine leaders, views up to 4: NEW_VIEW / vote locked on an empty-hash proof forged from VIEW_CHANGE signatures: exhaustive
 	}
 	if q {
 		return r
